@@ -75,11 +75,11 @@ Proof.
       destruct (dvalid s).
       * pose proof (dec_range_fields (add_cells s c) (length (buf s)) (length c)) as F.
         pose proof (dec_range_len (add_cells s c) (length (buf s)) (length c)) as G.
-        unfold add_cells, set_win in *. cbn [buf pos st rpos lenia inc rdone] in *. rewrite app_length in G.
+        unfold add_cells in *. cbn [buf pos st rpos lenia inc rdone] in *. rewrite app_length in G.
         destruct F as (F1 & F2 & F3 & F4 & F5 & F6).
         repeat split; auto; try lia;
           intro H; first [apply Nat.leb_le in H | apply Nat.leb_gt in H]; unfold remaining in H; lia.
-      * unfold add_cells, set_win. cbn [buf pos st rpos lenia inc rdone]. rewrite app_length.
+      * unfold add_cells. cbn [buf pos st rpos lenia inc rdone]. rewrite app_length.
         repeat split; auto; try lia;
           intro H; first [apply Nat.leb_le in H | apply Nat.leb_gt in H]; unfold remaining in H; cbn [buf] in H; try rewrite app_length in H; lia.
   - apply Nat.ltb_ge in E1. repeat split; auto; try lia; intro H; discriminate.
@@ -89,7 +89,7 @@ Ltac prj :=
   unfold L, remaining, endp in *;
   cbn [st pos buf rpos lenia rdone inc
        consume move_unused set_obf add_cells set_st set_win set_rpos set_crypto set_lenia set_dec set_dl set_extp set_exti
-       set_bfe set_aok add_w mark_recog set_w] in *.
+       set_bfe set_aok add_w mark_recog set_w set_ghost start_dec] in *.
 
 Lemma skipn_len : forall (A : Type) n (l : list A), length (skipn n l) = length l - n.
 Proof. intros. apply skipn_length. Qed.
@@ -205,7 +205,7 @@ Proof.
   unfold act_negot. fillcase NEGO s k eof s1 k1 b.
   destruct b.
   - specialize (F9 eq_refl). unfold L in *.
-    set (s2 := if inc s then s1 else dec_range (set_dec s1 true 0 (encr s1)) 0 NEGO).
+    set (s2 := if inc s then s1 else dec_range (start_dec s1 (encr s1)) 0 NEGO).
     assert (H2 : pos s2 = pos s1 /\ length (buf s2) = length (buf s1)).
     { subst s2. destruct (inc s); auto. rewrite dr_pos, dec_range_len. prj. auto. }
     destruct H2 as [H2a H2b].
